@@ -25,9 +25,18 @@ def groups(tier):
     g = [
         dict(id='M19.empty', desc='empty map <-> zero bytes', bounds='-', cases=[dict(what='empty')]),
         dict(id='M19.single', desc='every supported type: written bytes = documented layout and decode(encode(m)) = m (one entry)', bounds='1 entry, names 0-2 bytes, strings/sequences 0-2 elements, all 208 BrickColors, all 24 rotation ids, 9x2 fonts', cases=single),
+        long_group(),
         dict(id='M19.two', desc='two-entry maps: count, ordering by name, per-entry framing', bounds='2 entries, 1-byte names (symbolic order)', cases=two, budget=600),
     ]
     return g
+
+
+def long_group():
+    from . import bingroups
+    sizes, consts = bingroups.boundary_sizes(['attributes/reader.rs', 'attributes/writer.rs', 'attributes/mod.rs'], crates=['rbx_types'])
+    return dict(id='M19.long', desc='String / BinaryString / NumberSequence / ColorSequence attributes with lengths at the boundary constants of the reader / writer code: layout and round trip',
+                bounds='1 entry; lengths %s (65 and c, c+1 for the constants %s mined from the MIR of attributes/*.rs)' % (sizes, consts),
+                cases=[dict(what='rt', entries=[(k, 1, n)], range_limit=n + 8) for k in ('String', 'BinaryString', 'NumberSequence', 'ColorSequence') for n in sizes], budget=900)
 
 
 def run(tier, seed, t0, only=None):
